@@ -110,6 +110,12 @@ deriving Repr, Inhabited
 structure G where
   unique : Bool := true
   maxRetry : Nat := 30
+  replayChecks : Act → Bool := fun _ => true
+                                         -- which kinds of tracked action the merge replay (`refetchAndMergeClosure`) compares
+                                         -- with `versionInDB` ("detected a newer version of item"). The code compares EVERY
+                                         -- get / update / remove (a get followed by a remove is ONE remove entry, so the
+                                         -- remove's comparison is also the only validation of that read); a variant that
+                                         -- exempts a kind is expressible here (witness `Sop.C02.no_remove_check_counterexample`).
   keepTracker : Bool := false            -- refetch keeps lock ids, isLockOwner flags and replayed adds in the tracker
                                          -- (the repaired `refetchAndMergeClosure`, proposed_fixes/C04-refetch-keeps-tracker)
   pageOf : Nat → Nat := fun _ => 0
@@ -309,7 +315,8 @@ def refetchStep (g : G) (acc : Option (List Tr × List Nat)) (tr : Tr) : Option 
       match g.db tr.item with
       | none => none
       | some e =>
-        if e.key = tr.ent.key ∧ e.ver = tr.ent.ver then
+        -- `FindWithID` (key and id) and, per action kind, `item.Version != ci.versionInDB`
+        if e.key = tr.ent.key ∧ (g.replayChecks tr.act = false ∨ e.ver = tr.ent.ver) then
           some (out ++ [if g.keepTracker then { tr with phys := 0 } else { tr with gen := tr.gen + 1, own := false, phys := 0 }], newIds)
         else none
 
